@@ -39,6 +39,7 @@ type NativeResult struct {
 	Covers     []string `json:"covers"`
 	Observes   []ObsVal `json:"observes"`
 	Deadlock   bool     `json:"deadlock"`
+	Skipped    string   `json:"skipped"`
 }
 
 var harnessPkgs = []struct{ dir, rel, imp string }{
@@ -196,6 +197,12 @@ func runNative(genDir, hdir string, tapes []*Tape) (map[string]*NativeResult, er
 // compareWitness checks a natively replayed witness against the engine's
 // evaluation of the same run (translator validation).
 func compareWitness(tp *Tape, r *NativeResult) string {
+	if r.Skipped != "" {
+		return ""
+	}
+	if r.Deadlock {
+		return "native run did not finish (watchdog) on a path the engine completed"
+	}
 	if len(r.Fails) > 0 {
 		return "native run fails assertion " + r.Fails[0] + " on a path the engine completed"
 	}
